@@ -235,8 +235,209 @@ theorem not_good_dot : ¬ Good [DOT] := by
   intro h
   exact (h [DOT] (by decide)).2.1 rfl
 
+theorem triple_sys_keep {P : Proc → Prop} {s : Sys} (h : ∀ pr, P pr → P (exec s pr).2) :
+    Triple P (sys s) (fun _ => P) := triple_sys h
+
+theorem hl_sys {c : Ctx} {name : List Nat} {e : Entry} {es : ES} {s : Sys}
+    (h1 : QCall name s) (h2 : QCall (famOf name) s) : Triple (HL c name e es) (sys s) (fun _ => HL c name e es) :=
+  triple_sys_keep (fun pr hp => hl_exec h1 h2 hp)
+
+/-- What a successful `locate` of a relative dot-free path went through. -/
+theorem locate_entry_facts {fs : FS} {base : List Name} {p : List Nat} (hr : Rel p) {d : List Name} {n : Name}
+    (h : locate fs base p = .ok (.entry d n)) :
+    walk fs maxLinks base (initOf p) = .ok d ∧ (∃ t, get fs.root d = some t ∧ t.isDir = true) ∧
+    ¬ n.length > nameMax ∧ compsOf p = initOf p ++ [n] := by
+  unfold locate at h
+  simp only [hr.ne_nil, if_false, hr.notAbs, Bool.false_eq_true] at h
+  cases hl : (compsOf p).getLast? with
+  | none => exact absurd (List.getLast?_eq_none_iff.mp hl) hr.ne
+  | some last =>
+    have hmem : last ∈ compsOf p := List.mem_of_getLast? hl
+    have hnd := hr.noDots last hmem
+    have hcond : ¬ (last = DOTN ∨ last = DOTDOTN ∨ trailingSlash p = true) := by
+      simp [hnd.1, hnd.2, hr.noTrail]
+    simp only [hl, if_neg hcond] at h
+    have hsplit : compsOf p = initOf p ++ [last] := dropLast_getLast? _ _ hl
+    split at h
+    · simp at h
+    · rename_i d' hw
+      split at h
+      · rename_i m mt es hg
+        split at h
+        · simp at h
+        · rename_i hlen
+          simp only [Except.ok.injEq, Loc.entry.injEq] at h
+          obtain ⟨rfl, rfl⟩ := h
+          exact ⟨hw, ⟨_, hg, rfl⟩, hlen, hsplit⟩
+      · simp at h
+      · simp at h
+
+/-- `lstat(name)` right after `name` was made a link to inode `i`. -/
+theorem lstat_after_put {c : Ctx} {name : List Nat} {pr : Proc} (hS : Sem c name pr) (hg : Good name)
+    {r : List Name} {n : Name} (i : Nat)
+    (hl : locate pr.fs pr.cwd name = .ok (.entry (c.T ++ r) n)) :
+    lookupNoFollow (putAt pr.fs (c.T ++ r) n (.file i)) pr.cwd name = .ok (c.T ++ r ++ [n], .file i) := by
+  have hr := rel_good hg
+  obtain ⟨hw, ⟨tD, hD, hDd⟩, hlen, hsplit⟩ := locate_entry_facts hr hl
+  obtain ⟨tT, hT, hTd⟩ := hS.inv.tdir
+  rw [hS.inv.cwd] at hw hl ⊢
+  have hndi : NoDots (initOf name) := fun x hx => hr.noDots x (by rw [hsplit]; simp [hx])
+  have hreq : c.T ++ r = c.T ++ initOf name :=
+    (walk_noLink pr.fs maxLinks (initOf name) c.T tT hndi hT (hS.nl tT hT) _ hw)
+  have hr2 : r = initOf name := List.append_cancel_left hreq
+  subst hr2
+  have hlenok := walk_ok_len pr.fs maxLinks (initOf name) c.T tT hndi hT (hS.nl tT hT) _ hw
+  -- the directory that holds `n` in the new tree
+  have hD' : get (putAt pr.fs (c.T ++ initOf name) n (.file i)).root (c.T ++ initOf name)
+      = some ((tD.put n (.file i)).touch) := by
+    simp only [putAt]; rw [get_modify_same, hD]; rfl
+  have hw' : walk (putAt pr.fs (c.T ++ initOf name) n (.file i)) maxLinks c.T (initOf name)
+      = .ok (c.T ++ initOf name) :=
+    walk_chain _ maxLinks (initOf name) c.T hndi hlenok ⟨_, hD', by simpa using hDd⟩
+  unfold lookupNoFollow locate
+  have hlast : (compsOf name).getLast? = some n := by rw [hsplit]; simp
+  have hmem : n ∈ compsOf name := by rw [hsplit]; simp
+  have hnd := hr.noDots n hmem
+  have hcond : ¬ (n = DOTN ∨ n = DOTDOTN ∨ trailingSlash name = true) := by simp [hnd.1, hnd.2, hr.noTrail]
+  simp only [hr.ne_nil, if_false, hr.notAbs, Bool.false_eq_true, hlast, if_neg hcond]
+  have hdl : (compsOf name).dropLast = initOf name := rfl
+  rw [hdl, hw']
+  simp only [hD']
+  cases tD with
+  | file j => simp [Tree.isDir] at hDd
+  | dir m mt es =>
+    simp only [Tree.put, Tree.touch, hlen, if_false]
+    rw [hD']
+    simp only [Tree.put, Tree.touch, Option.bind_some, Tree.child, alGet_alSet, if_true]
+
+
+/-- Outcome of `linkat(e.link, name)` for the program that follows it. -/
+def LinkPost (c : Ctx) (name : List Nat) (e : Entry) (es : ES) (r : R) (pr1 : Proc) : Prop :=
+  (errOf r ≠ none → HL c name e es pr1) ∧
+  (errOf r = none → Sem c name pr1 ∧ ∃ i p, lookupNoFollow pr1.fs pr1.cwd name = .ok (p, .file i) ∧
+    (isLnk pr1.fs (.file i) = false → CN e es → Sem c (famOf name) pr1))
+
+theorem famOf_good {name : List Nat} (hg : Good name) : famOf name = qx name := by
+  unfold famOf
+  have : name ≠ [DOT] := fun h => not_good_dot (h ▸ hg)
+  simp [this]
+
+theorem link_post (c : Ctx) (e : Entry) (name lc : List Nat) (hn : NameOK name) (es : ES)
+    (hnf : ∀ x ∈ e.link, x ≠ 0) (hcl : cleanup { nodotdot := true, noabs := true } e.link = .ok lc) :
+    Triple (fun pr => HL c name e es pr ∧ (Good lc → NoLinkAt pr.fs c.T (initOf lc)))
+      (sys (Sys.link e.link name)) (LinkPost c name e es) := by
+  refine triple_sys ?_
+  intro pr hp
+  have hS := hp.1.1
+  have hF := (famCtx_name hn).self
+  have hfail : ∀ en, LinkPost c name e es (.err en) pr :=
+    fun en => ⟨fun _ => hp.1, fun h => by simp [errOf] at h⟩
+  simp only [exec]
+  split
+  · exact hfail _
+  · rename_i pos src hlk
+    split
+    · exact hfail _
+    · exact hfail _
+    · rename_i d n hl
+      rcases locate_fam hS hF hl with ⟨_, hloc⟩ | ⟨r, n', hloc, _, hcomps⟩
+      · simp at hloc
+      simp only [Loc.entry.injEq] at hloc
+      obtain ⟨rfl, rfl⟩ := hloc
+      split
+      · exact hfail _
+      · split
+        · exact hfail _
+        · rename_i i
+          have hg : Good name := by
+            rcases hn with rfl | h
+            · -- "." is located as an object, not as an entry
+              exfalso
+              rcases locate_fam hS (Or.inl rfl) hl with ⟨_, hloc⟩ | ⟨r', n', hloc, _, hc'⟩
+              · simp at hloc
+              · have e1 : compsOf [DOT] = [DOTN] := by decide
+                rw [e1] at hc' hcomps
+                have : ∀ (x : Name), x ∈ r ++ [n] → x = DOTN := by
+                  intro x hx; rw [← hcomps] at hx; simpa using hx
+                have hn' := this n (by simp)
+                -- then `locate` would have taken the "." branch
+                unfold locate at hl
+                simp only [show ([DOT] : List Nat) ≠ [] by decide, if_false, e1, List.getLast?_singleton, true_or,
+                  if_true] at hl
+                split at hl
+                · simp at hl
+                · split at hl <;> simp at hl
+            · exact h
+          obtain ⟨hin, hlt⟩ := lookup_raw_inside hS hnf hcl hp.2 hlk
+          have hnotpre : ¬ (r ++ [n]) <+: initOf name := by
+            have : initOf name = r := by unfold initOf; rw [hcomps]; simp
+            rw [this]; exact not_prefix_snoc r n
+          refine ⟨fun h => absurd rfl h, fun _ => ⟨?_, i, c.T ++ r ++ [n], ?_, ?_⟩⟩
+          · exact sem_putAt hS r n (.file i) (refsIn_file hin) (refsIn_file hlt) (Or.inr hnotpre)
+          · exact lstat_after_put hS hg i hl
+          · intro hnl hcn
+            have hS2 := hp.1.2 hcn
+            exact sem_putAt hS2 r n (.file i) (refsIn_file hin) (refsIn_file hlt)
+              (Or.inl ⟨fun hd => by simp [Tree.isDir] at hd, fun _ => by
+                rw [isLnk_setRoot] at hnl; exact hnl⟩)
+
+
+/-- What follows `linkat` in the hard-link branch of `create_filesystem_object`. -/
+theorem link_tail (c : Ctx) (e : Entry) (name : List Nat) (hn : NameOK name) (es : ES) (r : R) :
+    Triple (LinkPost c name e es r)
+      (match errOf r with
+        | some en => pure (some en, es)
+        | none =>
+          if e.filesize = 0 then
+            pure (none, { es with todoMode := false, todoTimes := false, defMode := false, defTimes := false })
+          else do
+            let r2 ← sys (.lstat name)
+            match r2 with
+            | .st ⟨.reg, _⟩ => do
+              let r3 ← sys (.openTrunc name)
+              match errOf r3 with
+              | some en => pure (some en, es)
+              | none => pure (none, { es with hasFd := true })
+            | .st _ => pure (none, { es with todoMode := false, todoTimes := false, defMode := false, defTimes := false })
+            | .err en => pure (some en, es)
+            | _ => pure (some .EIO, es) : Prog (Option Err × ES))
+      (fun x pr' => HL c name e x.2 pr') := by
+  have hF1 := famCtx_name hn
+  have hF2 := famCtx_famOf hn
+  cases hr : errOf r with
+  | some en => exact triple_pure (fun pr hp => hp.1 (by rw [hr]; simp))
+  | none =>
+    simp only []
+    refine triple_ite (fun _ => triple_pure (fun pr hp => ⟨(hp.2 hr).1, fun hcn => by simp [CN] at hcn⟩)) (fun _ => ?_)
+    intro pr1 hp
+    obtain ⟨hS, i, p, hlook, hfull⟩ := hp.2 hr
+    rw [run_bind', run_sys]
+    simp only [exec, hlook, statR, statOfTree]
+    cases hf : pr1.fs.files i with
+    | none =>
+      simp only [run_pure]
+      exact ⟨hS, fun hcn => hfull (by simp [isLnk, hf]) hcn⟩
+    | some nd =>
+      cases nd with
+      | lnk tg => simp only [run_pure]; exact ⟨hS, fun hcn => by simp [CN] at hcn⟩
+      | fifo m mt => simp only [run_pure]; exact ⟨hS, fun hcn => by simp [CN] at hcn⟩
+      | reg d m mt =>
+        simp only []
+        have hHL : HL c name e es pr1 := ⟨hS, fun hcn => hfull (by simp [isLnk, hf]) hcn⟩
+        have := triple_bind (hl_sys (c := c) (e := e) (es := es) (s := .openTrunc name) hF1.self hF2.self)
+          (f := fun r3 => (match errOf r3 with
+              | some en => pure (some en, es)
+              | none => pure (none, { es with hasFd := true }) : Prog (Option Err × ES)))
+          (R := fun x pr' => HL c name e x.2 pr')
+          (fun r3 => by
+            cases errOf r3 with
+            | some en => exact triple_pure (fun _ h => h)
+            | none => exact triple_pure (fun _ h => hl_mono h (fun hcn => by simp [CN] at hcn)))
+        exact this pr1 hHL
+
+
 theorem createObject_hl (c : Ctx) (fl : XFlags) (hfl : SecureFlags fl) (um : Nat) (e : Entry) (name : List Nat)
-    (hn : NameOK name) (hk : e.kind = .hardlink) (hd : e.data = []) (hnf : ∀ x ∈ e.link, x ≠ 0) (es : ES) :
+    (hn : NameOK name) (hk : e.kind = .hardlink) (hnf : ∀ x ∈ e.link, x ≠ 0) (es : ES) :
     Triple (HL c name e es) (createObject fl um e name es) (fun r pr' => HL c name e r.2 pr') := by
   unfold createObject
   simp only [hk]
@@ -245,9 +446,8 @@ theorem createObject_hl (c : Ctx) (fl : XFlags) (hfl : SecureFlags fl) (um : Nat
   | failed w => exact triple_pure (fun pr hp => hp)
   | oob => exact triple_pure (fun pr hp => hp)
   | ok lc =>
-    have hfs : e.filesize = 0 := by simp [Entry.filesize, hk, hd]
     have hlc : NameOK lc := nameOK_of_cleanup hnf hcl
-    simp only [hfs, if_true]
+    simp only []
     refine triple_bind
       (Q := fun r pr' => HL c name e es pr' ∧ (r = .ok → Good lc → NoLinkAt pr'.fs c.T (initOf lc))) ?_ ?_
     · intro pr hp
@@ -263,7 +463,7 @@ theorem createObject_hl (c : Ctx) (fl : XFlags) (hfl : SecureFlags fl) (um : Nat
       refine triple_ite (fun _ => triple_pure (fun pr hp => hp.1)) (fun hr => ?_)
       have hrok : r = .ok := by simpa using hr
       subst hrok
-      have hstep := link_step c e name lc hn es hnf hcl
+      have hstep := triple_bind (link_post c e name lc hn es hnf hcl) (fun r => link_tail c e name hn es r)
       refine triple_ite (fun _ => ?_) (fun _ => ?_)
       · refine triple_bind (Q := fun _ pr' => HL c name e es pr' ∧ (Good lc → NoLinkAt pr'.fs c.T (initOf lc))) ?_
           (fun _ => hstep)
@@ -275,14 +475,6 @@ theorem createObject_hl (c : Ctx) (fl : XFlags) (hfl : SecureFlags fl) (um : Nat
         have hSlc : Sem c lc pr := ⟨hp.1.1.inv, hp.1.1.wf, hp.2 rfl hg⟩
         exact (doUnlink_keeps_any hp.1.1 (famCtx_name hn).self lc hSlc).nl
       · exact triple_conseq (fun pr hp => ⟨hp.1, hp.2 rfl⟩) hstep (fun _ _ h => h)
-
-
-theorem triple_sys_keep {P : Proc → Prop} {s : Sys} (h : ∀ pr, P pr → P (exec s pr).2) :
-    Triple P (sys s) (fun _ => P) := triple_sys h
-
-theorem hl_sys {c : Ctx} {name : List Nat} {e : Entry} {es : ES} {s : Sys}
-    (h1 : QCall name s) (h2 : QCall (famOf name) s) : Triple (HL c name e es) (sys s) (fun _ => HL c name e es) :=
-  triple_sys_keep (fun pr hp => hl_exec h1 h2 hp)
 
 /-- `restore_entry` for a hard-link entry, given what `create_filesystem_object` guarantees. -/
 theorem restore_hl (c : Ctx) (fl : XFlags) (um : Nat) (e : Entry) (name : List Nat) (hn : NameOK name)
@@ -363,19 +555,16 @@ theorem restore_hl (c : Ctx) (fl : XFlags) (um : Nat) (e : Entry) (name : List N
 
 
 theorem restore_spec_hardlink (c : Ctx) (fl : XFlags) (hfl : SecureFlags fl) (um : Nat) (e : Entry)
-    (name : List Nat) (hn : NameOK name) (hk : e.kind = .hardlink) (hd : e.data = [])
+    (name : List Nat) (hn : NameOK name) (hk : e.kind = .hardlink)
     (hnf : ∀ x ∈ e.link, x ≠ 0) (es : ES) :
     Triple (fun pr => Sem c name pr ∧ Full c name pr) (restoreEntry fl um e name es)
       (fun r pr' => Sem c name pr' ∧ (CN e r.2 → Full c name pr')) := by
-  have := restore_hl c fl um e name hn hk (fun es' => createObject_hl c fl hfl um e name hn hk hd hnf es') es
+  have := restore_hl c fl um e name hn hk (fun es' => createObject_hl c fl hfl um e name hn hk hnf es') es
   exact triple_conseq (fun pr hp => ⟨hp.1, fun _ => (sem_famOf_iff hn).mpr hp⟩) this
     (fun r pr hq => ⟨hq.1, fun hcn => ((sem_famOf_iff hn).mp (hq.2 hcn)).2⟩)
 
-/-- Hard-link entries covered by the proof so far: those without a body. -/
-def NoHardlinkData (e : Entry) : Prop := e.kind = .hardlink → e.data = []
-
 theorem restore_spec (c : Ctx) (fl : XFlags) (hfl : SecureFlags fl) (um : Nat) (e : Entry)
-    (name : List Nat) (hn : NameOK name) (hd : NoHardlinkData e) (hnf : ∀ x ∈ e.link, x ≠ 0) (es : ES) :
+    (name : List Nat) (hn : NameOK name) (hnf : ∀ x ∈ e.link, x ≠ 0) (es : ES) :
     Triple (fun pr => Sem c name pr ∧ Full c name pr) (restoreEntry fl um e name es)
       (fun r pr' => Sem c name pr' ∧ (CN e r.2 → Full c name pr')) := by
   cases hk : e.kind with
@@ -383,7 +572,7 @@ theorem restore_spec (c : Ctx) (fl : XFlags) (hfl : SecureFlags fl) (um : Nat) (
   | dir => exact restore_spec_plain c fl um e name hn (Or.inr (Or.inl hk)) es
   | fifo => exact restore_spec_plain c fl um e name hn (Or.inr (Or.inr hk)) es
   | symlink => exact restore_spec_symlink c fl um e name hn hk es
-  | hardlink => exact restore_spec_hardlink c fl hfl um e name hn hk (hd hk) hnf es
+  | hardlink => exact restore_spec_hardlink c fl hfl um e name hn hk hnf es
 
 /-- `chmod(name)` when `Full` holds. -/
 theorem sem_exec_chmod_full {c : Ctx} {name : List Nat} {pr : Proc} (hS : Sem c name pr) (hF : Full c name pr)
@@ -638,7 +827,7 @@ def CurOK (c : Ctx) (w : Writer) (pr : Proc) : Prop :=
 /-- Invariant of the writer between API calls. -/
 def G (c : Ctx) (w : Writer) (pr : Proc) : Prop := Sem c [] pr ∧ CurOK c w pr
 
-def EntryOK (e : Entry) : Prop := (∀ x ∈ e.path, x ≠ 0) ∧ (∀ x ∈ e.link, x ≠ 0) ∧ NoHardlinkData e
+def EntryOK (e : Entry) : Prop := (∀ x ∈ e.path, x ≠ 0) ∧ (∀ x ∈ e.link, x ≠ 0)
 
 theorem sem_dot_of_base {c : Ctx} {pr : Proc} (h : Sem c [] pr) : Sem c [DOT] pr :=
   sem_weaken h (by decide)
@@ -708,7 +897,7 @@ theorem header_spec (c : Ctx) (fl : XFlags) (hfl : SecureFlags fl) (w : Writer) 
       have hok : chk = .ok := by simpa using hchk
       refine triple_bind (Q := fun r pr' => (Sem c name pr' ∧ (CN e r.2 → Full c name pr')) ∧ PF r.2.fix)
         (triple_and_rets
-          (triple_conseq (fun pr hp => hp.2 hok) (restore_spec c fl hfl _ e name hn he.2.2 he.2.1 _) (fun _ _ h => h))
+          (triple_conseq (fun pr hp => hp.2 hok) (restore_spec c fl hfl _ e name hn he.2 _) (fun _ _ h => h))
           ?_)
         (fun r => ?_)
       · exact allRets_restoreEntry _ _ _ _ (nulFree_of_cleanup he.1 hcl) _ pf_nil
